@@ -80,9 +80,11 @@ Index(set, m) == [sl \in SlotNames |-> [n \in 0..m |-> {x \in set : Fits(x, sl) 
 RECURSIVE Fill(_, _, _, _, _, _)
 Fill(slots, i, apool, npool, m, k) ==
   IF i > Len(slots) THEN {<<>>}
-  ELSE UNION {UNION {{<<e>> \o s : s \in Fill(slots, i + 1, apool, npool, m - n, k)} : e \in apool[slots[i]][n]} : n \in 0..m}
-       \cup (IF k = 0 THEN {} ELSE
-             UNION {UNION {{<<e>> \o s : s \in Fill(slots, i + 1, apool, npool, m - n, k - 1)} : e \in npool[slots[i]][n]} : n \in 0..m})
+  ELSE UNION {LET restA == Fill(slots, i + 1, apool, npool, m - n, k)
+                  restN == IF k = 0 THEN {} ELSE Fill(slots, i + 1, apool, npool, m - n, k - 1)
+              IN {<<e>> \o s : e \in apool[slots[i]][n], s \in restA} \cup
+                 (IF k = 0 THEN {} ELSE {<<e>> \o s : e \in npool[slots[i]][n], s \in restN})
+              : n \in 0..m}
 
 Atoms == {VLeaf, CLeaf, SLeaf, DLeaf, Nm("P")}
 Build(apool, npool, m, k) ==
@@ -135,7 +137,7 @@ Stmts ==
   (IF "aug" \in Tops THEN {Nd("aug", <<t1, v>>) : t1 \in (TargetsM \ {Nd("tN", <<>>)}) \cup {Nm("P")}, v \in Opd} ELSE {}) \cup
   (IF "unpack" \in Tops THEN {Nd("unpack", <<t1, t2, r>>) : t1 \in Targets1, t2 \in Targets1, r \in UnpackRhs} ELSE {})
 
-SizesP == PrintT(<<"sizes", Cardinality(E1), Cardinality(E2), Cardinality(Opd), Cardinality(TargetsM), Cardinality(Stmts)>>)
+
 Cases == {s \in Stmts : NL(s) >= 1 /\ NL(s) <= MaxLeaves /\ (s.t = "ret" \/ Sel(s))}
 
 ---------------------------------------------------------------------------
@@ -320,8 +322,8 @@ Exec(e, env) ==    \* e is the root (path 0)
                            Log(h.st, vs[1].r \o (IF tg.t = "tattr" THEN ".setattr(" ELSE ".setitem(") \o key \o ", " \o h.v.r \o ")")
 
 ---------------------------------------------------------------------------
-VARIABLES ast, typ, outs, log, exc
-vars == <<ast, typ, outs, log, exc>>
+VARIABLES phase, ast, typ, outs, log, exc
+vars == <<phase, ast, typ, outs, log, exc>>
 
 LP(a) == Paths(a, 0)
 OutFn(a, o) == [p \in {LP(a)[i] : i \in 1..Len(LP(a))} |-> o[CHOOSE i \in 1..Len(LP(a)) : LP(a)[i] = p]]
@@ -332,11 +334,18 @@ Logged(lg, p) == \E i \in 1..Len(lg) : lg[i] = LeafTag(p)
 Canon(a, o, lg) == \A i \in 1..Len(o) : /\ (~Logged(lg, LP(a)[i]) => o[i] = "T")
                                          /\ (NodeAt(a, LP(a)[i]).k \in {"s", "d"} => o[i] # "F")
 
-Init == /\ ast \in Cases
-        /\ typ \in Typings
-        /\ outs \in [1..Len(LP(ast)) -> {"T", "F", "R"}]
-        /\ LET r == Run(ast, typ, outs) IN /\ Canon(ast, outs, r.log) /\ log = r.log /\ exc = r.exc
-Next == UNCHANGED vars
+(* root -> one state per AST -> one state per (typing, canonical outcome vector) carrying the expected log *)
+Init == /\ phase = "root" /\ ast = Nm("P") /\ typ = "" /\ outs = <<>> /\ log = <<>> /\ exc = ""
+PickAst == /\ phase = "root" /\ phase' = "ast"
+           /\ ast' \in Cases
+           /\ UNCHANGED <<typ, outs, log, exc>>
+PickCase == /\ phase = "ast" /\ phase' = "case"
+            /\ \E t \in Typings, o \in [1..Len(LP(ast)) -> {"T", "F", "R"}] :
+                  LET r == Run(ast, t, o) IN
+                  /\ Canon(ast, o, r.log)
+                  /\ typ' = t /\ outs' = o /\ log' = r.log /\ exc' = r.exc
+            /\ UNCHANGED ast
+Next == PickAst \/ PickCase
 Spec == Init /\ [][Next]_vars
 
 ---------------------------------------------------------------------------
@@ -345,9 +354,9 @@ Pos(p) == CHOOSE i \in 1..Len(log) : log[i] = LeafTag(p)
 LPs == LP(ast)
 EvaluatedIdx == {i \in 1..Len(LPs) : Logged(log, LPs[i])}
 \* every leaf is evaluated at most once
-AtMostOnce == \A i \in 1..Len(LPs) : Cardinality({j \in 1..Len(log) : log[j] = LeafTag(LPs[i])}) <= 1
+AtMostOnceB == \A i \in 1..Len(LPs) : Cardinality({j \in 1..Len(log) : log[j] = LeafTag(LPs[i])}) <= 1
 \* a raising leaf is the last event; without a raise no evaluated leaf had outcome R
-StopsAtRaise == /\ exc = "" => \A i \in EvaluatedIdx : outs[i] # "R"
+StopsAtRaiseB == /\ exc = "" => \A i \in EvaluatedIdx : outs[i] # "R"
                 /\ exc # "" => /\ exc = "LeafErr"
                                /\ \E i \in EvaluatedIdx : /\ outs[i] = "R" /\ log[Len(log)] = LeafTag(LPs[i])
                                                           /\ \A j \in EvaluatedIdx \ {i} : outs[j] # "R"
@@ -355,25 +364,32 @@ StopsAtRaise == /\ exc = "" => \A i \in EvaluatedIdx : outs[i] # "R"
 RECURSIVE HasForm(_, _), HasFormS(_, _, _)
 HasForm(e, fs) == e.t \in fs \/ HasFormS(e.a, fs, Len(e.a))
 HasFormS(s, fs, n) == IF n = 0 THEN FALSE ELSE HasForm(s[n], fs) \/ HasFormS(s, fs, n - 1)
-AllEvaluated == (exc = "" /\ ~HasForm(ast, {"and", "or", "cond", "lt3"})) => EvaluatedIdx = 1..Len(LPs)
+AllEvaluatedB == (exc = "" /\ ~HasForm(ast, {"and", "or", "cond", "lt3"})) => EvaluatedIdx = 1..Len(LPs)
 \* source order = preorder of paths.  Expressions whose order IS source order: no conditional expression
 \* (test first) and no call in which *args follows a keyword argument (processed first)
 RECURSIVE OddCall(_), OddCallS(_, _)
 OddCall(e) == (e.t = "call" /\ \E i, j \in 1..Len(e.sig) : i < j /\ e.sig[i] = "k" /\ e.sig[j] = "s") \/ OddCallS(e.a, Len(e.a))
 OddCallS(s, n) == IF n = 0 THEN FALSE ELSE OddCall(s[n]) \/ OddCallS(s, n - 1)
-LeftToRight == (ast.t = "ret" /\ ~HasForm(ast, {"cond"}) /\ ~OddCall(ast)) =>
+LeftToRightB == (ast.t = "ret" /\ ~HasForm(ast, {"cond"}) /\ ~OddCall(ast)) =>
                   \A i, j \in EvaluatedIdx : i < j => Pos(LPs[i]) < Pos(LPs[j])
 \* assignments: every evaluated leaf of the right-hand side precedes every leaf of the targets;
 \* targets among themselves left to right.  Augmented: target operands, then the value
-RhsFirst == ast.t \in {"assign", "unpack"} =>
+RhsFirstB == ast.t \in {"assign", "unpack"} =>
                LET n == Len(ast.a)
                    isRhs(p) == Digits(p)[1] = n
                IN \A i, j \in EvaluatedIdx :
                      /\ (isRhs(LPs[i]) /\ ~isRhs(LPs[j])) => Pos(LPs[i]) < Pos(LPs[j])
-                     /\ (i < j /\ isRhs(LPs[i]) = isRhs(LPs[j])) => Pos(LPs[i]) < Pos(LPs[j])
-AugOrder == ast.t = "aug" => \A i, j \in EvaluatedIdx : i < j => Pos(LPs[i]) < Pos(LPs[j])
+                     /\ (i < j /\ ~isRhs(LPs[i]) /\ ~isRhs(LPs[j])) => Pos(LPs[i]) < Pos(LPs[j])
+AugOrderB == ast.t = "aug" => \A i, j \in EvaluatedIdx : i < j => Pos(LPs[i]) < Pos(LPs[j])
 \* a store is the last thing an assignment does for a target: the number of store events
 Stores == Cardinality({i \in 1..Len(log) : \E k \in 1..Len(log[i]) : SubSeq(log[i], k, k + 4) = ".seta" \/ SubSeq(log[i], k, k + 4) = ".seti"})
 
-Publish == Dump => PrintT("@@" \o ToJson([ast |-> ast, ty |-> typ, lp |-> LPs, out |-> outs, log |-> log, exc |-> exc]))
+AtMostOnce   == phase = "case" => AtMostOnceB
+StopsAtRaise == phase = "case" => StopsAtRaiseB
+AllEvaluated == phase = "case" => AllEvaluatedB
+LeftToRight  == phase = "case" => LeftToRightB
+RhsFirst     == phase = "case" => RhsFirstB
+AugOrder     == phase = "case" => AugOrderB
+
+Publish == (Dump /\ phase = "case") => PrintT("@@" \o ToJson([ast |-> ast, ty |-> typ, lp |-> LPs, out |-> outs, log |-> log, exc |-> exc]))
 =============================================================================
